@@ -50,6 +50,17 @@ pub fn is_acgt(c: u8) -> bool {
 }
 
 pub fn gen_bytes(rng: &mut Rng, tier: Tier) -> Vec<u8> {
+    // rare: an input of 2 MiB and a bit (bulk / multi-threaded conversion thresholds)
+    if rng.chance(1, if tier == Tier::Thorough { 3000 } else { 6000 }) {
+        let len = (1usize << 21) + rng.range(0, 300);
+        let valid = b"ACGTacgt";
+        let mut v: Vec<u8> = (0..len).map(|_| *rng.pick(valid)).collect();
+        for _ in 0..rng.range(0, 5) {
+            let p = rng.below(len);
+            v[p] = b'N';
+        }
+        return v;
+    }
     let len = match rng.below(10) {
         0 => rng.range(0, 31),
         1 => 32 * rng.range(1, 4),
@@ -57,8 +68,8 @@ pub fn gen_bytes(rng: &mut Rng, tier: Tier) -> Vec<u8> {
         3..=6 => rng.range(0, 130),
         7 => rng.range(96, 400),
         _ => {
-            if tier == Tier::Thorough {
-                rng.range(1000, 6000)
+            if tier == Tier::Thorough || rng.chance(1, 8) {
+                rng.range(1000, 9000)
             } else {
                 rng.range(200, 1200)
             }
@@ -308,6 +319,20 @@ impl Harness for C16 {
                 }
             } else if v > 3 {
                 return Err(viol("hashn-invalid-base", "from_acgt_bytes_hashn", format!("position {} -> {}", i, v)));
+            }
+        }
+        if invalid >= 1 {
+            // function of (name, position) - hence not of WHICH non-ACGT byte stands there
+            let subs: [u8; 6] = [b'N', b'.', b'-', b'7', 0x00, 0xC8];
+            let alt: Vec<u8> = c.bytes.iter().enumerate().map(|(i, b)| if is_acgt(*b) { *b } else { let s = subs[(i + *b as usize) % subs.len()]; if s == *b { b'n' } else { s } }).collect();
+            let h4 = with_path(c.force_scalar, || DnaString::from_acgt_bytes_hashn(&alt, &c.name));
+            if h4 != h1 {
+                let p = (0..n).find(|i| h4.get(*i) != h1.get(*i));
+                return Err(viol(
+                    "hashn-depends-on-byte-value",
+                    "from_acgt_bytes_hashn",
+                    format!("replacing the non-ACGT bytes by other non-ACGT bytes changed the substitute at position {:?}", p),
+                ));
             }
         }
         if invalid >= 2 {
